@@ -86,12 +86,69 @@ def rule_split_table(ctx):
                 f"`balanced_pair(punct({tok}), punct({tok}))` also opens on the *binary operator* `|` (there is no check that a closure can start here): in `a | b, c | d` the two `|` are paired across the comma and the two arguments are read as one",
                 {},
             )
+    # a closing token that is also the second half of a two-character operator legal *inside* the group must be skipped as a unit:
+    # `->` (fn-pointer and `Fn(A) -> B` types are generic arguments) ends in the `>` that closes `<..>`
+    ctx.instance("hazard:arrow-in-angle")
+    if any("balanced_pair(punct('<'),punct('>'))" in a for a in alts):
+        why = _arrow_unit(ctx, f)
+        if why:
+            ctx.report(
+                "split:hazard:arrow-in-angle",
+                w,
+                "`balanced_pair(punct('<'), punct('>'))` counts the `>` of a `->` as the closing angle bracket (" + why + "): in `pick::<fn() -> u8, u8>(*_0)` the bracket is closed after `fn() -`, "
+                "the comma between the two generic arguments splits the format argument in two, and the derive counts / numbers arguments differently from format_args! (a bare `{}` is no longer delegated)",
+                {},
+            )
     # ident-only rule
     t = A.fn_text(fn)
     ctx.instance("ident-only")
     if "c.ident().filter(|(_,c)|c.eof()||punct(',')(*c).is_some())" not in t or t.count("Self::Ident(") != 1:
         ctx.report("split:ident-only", w, "`Expr::Ident` is no longer produced only for an argument consisting of a single identifier (followed by `,` or the end)", {})
     _scanner_progress(ctx)
+
+
+def _is_arrow_parser(f, e, depth=0):
+    """does the parser expression `e` (a call `p(c)`'s callee, or an inline `seq([..])`) recognise exactly a joint `-` followed by `>`?"""
+    txt = A.render(e)
+    if re.fullmatch(r"seq\(\[&mut punct_with_spacing\('-',Spacing::Joint\),&mut punct(_with_spacing)?\('>'(,Spacing::\w+)?\)\]\)", txt):
+        return True
+    nm = A.path_str(e)
+    if nm and "::" not in nm and depth < 2:
+        for g in A.functions(f):
+            if g.name == nm and g.block is not None and len(g.block["stmts"]) == 1 and A.kind(g.block["stmts"][0]) == "Stmt::Expr":
+                b = A.peel(g.block["stmts"][0]["0"])
+                if A.kind(b) == "Expr::Call" and len(b["args"]) == 1:
+                    return _is_arrow_parser(f, b["func"], depth + 1)
+    return False
+
+
+def _arrow_unit(ctx, f):
+    """None when `balanced_pair` consumes `->` as one unit *before* it tests for the closing token (without touching the nesting count); otherwise the reason."""
+    bp = [g for g in A.functions(f) if g.name == "balanced_pair" and g.block is not None]
+    if len(bp) != 1:
+        raise A.AnchorLost(f"{PARSING}::balanced_pair", "the balanced-group scanner")
+    bp = bp[0]
+    prm = [A.pat_idents(p_["0"]["pat"]) for p_ in bp.node["sig"]["inputs"] if A.kind(p_) == "FnArg::Typed"]
+    if len(prm) != 2 or not prm[1]:
+        raise A.AnchorLost(f"{PARSING}::balanced_pair", "two parser parameters (open, close)")
+    close = prm[1][0]
+    loops = [x for x, _ in A.find(bp.block, "Expr::While")] + [x for x, _ in A.find(bp.block, "Expr::Loop")]
+    if len(loops) != 1:
+        raise A.AnchorLost(f"{PARSING}::balanced_pair", "one scanning loop")
+    order = []  # (callee expr, branch) of every `if let Some(_) = P(c)` of the loop, in source (= evaluation) order
+    for x, _ in A.find(loops[0]["body"], "Expr::If"):
+        c = x["cond"]
+        if A.kind(c) == "Expr::Let" and A.kind(A.peel(c["expr"])) == "Expr::Call":
+            order.append((A.peel(c["expr"])["func"], x["then_branch"]))
+    idx = [i for i, (fe, _) in enumerate(order) if A.path_str(fe) == close]
+    if not idx:
+        raise A.AnchorLost(f"{PARSING}::balanced_pair", f"the test for the closing token `if let Some(..) = {close}(c)`")
+    for fe, br in order[: idx[0]]:
+        if _is_arrow_parser(f, fe):
+            if re.search(r"count\s*[-+]=", A.render(br)):
+                return "the `->` branch changes the nesting count"
+            return None
+    return "no branch consumes a joint `-` `>` before the closing token is tested"
 
 
 def _scanner_progress(ctx):
@@ -209,7 +266,7 @@ def rule_alias_test(ctx):
         n = et.count(f"punct('{ch}')")
         if n:
             ctx.instance(f"punct:{ch}", sample={"char": ch, "uses": n, "operators_sharing_it": ops})
-    # `->` inside `::<..>` closes the angle bracket early, `|=` opens a closure bracket: exotic, listed in DESIGN.md as residual hazards (not decided)
+    # `|=` opening a closure bracket (`a |= b, c |= d` as *expressions of type ()* cannot be formatted): exotic, listed in DESIGN.md as a residual hazard (not decided)
 
 
 def rule_ident_argument(ctx):
